@@ -1,6 +1,6 @@
 """A small front end for the SQL subset MonkeyType's SQLite store emits.
 
-    query   := SELECT cols FROM source [WHERE cond (AND cond)*] [GROUP BY cols] [ORDER BY <anything up to LIMIT>] [LIMIT ?]
+    query   := SELECT [DISTINCT | ALL] cols FROM source [WHERE cond (AND cond)*] [GROUP BY cols] [ORDER BY <anything up to LIMIT>] [LIMIT ?]
     source  := identifier | '(' query ')'
     cond    := col (== | =) ?
              | col LIKE ? '||' '%'            | col LIKE ?
@@ -84,7 +84,13 @@ class Parser:
 
     def query(self) -> Dict[str, Any]:
         self.eat("SELECT")
-        q: Dict[str, Any] = {"select": self.cols(), "where": [], "group_by": None, "order_by": None, "limit": None}
+        distinct = False
+        if self.peek() == "DISTINCT":
+            self.eat("DISTINCT")
+            distinct = True
+        elif self.peek() == "ALL":
+            self.eat("ALL")
+        q: Dict[str, Any] = {"select": self.cols(), "where": [], "group_by": None, "order_by": None, "limit": None, "distinct": distinct}
         self.eat("FROM")
         if self.peek() == "(":
             self.eat("(")
@@ -102,6 +108,14 @@ class Parser:
             self.eat("GROUP")
             self.eat("BY")
             q["group_by"] = self.cols()
+        if distinct:
+            # SELECT DISTINCT cols == one row per distinct value of the selected columns == GROUP BY cols
+            if q["select"] == ["*"]:
+                raise Unsupported("SELECT DISTINCT *")
+            if q["group_by"] is None:
+                q["group_by"] = list(q["select"])
+            elif set(q["group_by"]) != set(q["select"]):
+                raise Unsupported("SELECT DISTINCT combined with a different GROUP BY")
         if self.peek() == "ORDER":
             self.eat("ORDER")
             self.eat("BY")
